@@ -7,6 +7,7 @@ pub mod child;
 pub mod eng;
 pub mod store;
 pub mod plan;
+pub mod hist;
 
 pub use runner::{CheckResult, Ctx, Fail, Obs, Tier};
 pub use val::{V, VT};
